@@ -51,6 +51,33 @@ def runBud (c : Case) : Res :=
           if secsS.startsWith "slow" then bad := s!"repair ran {secsS}" :: bad
         | _, _, _ => pure ()
       | _ => pure ()
+    -- inconsistent predicates (a lying `Kernel`):
+    -- bk <D> <cells> <mode> <adv> <in-sphere calls> <result> <flips> <max_flips> <unchanged> <secs>
+    for r in c.recsOf "bk" do
+      match r with
+      | [dS, cellsS, mode, adv, callsS, result, flipsS, maxS, unchanged, secsS] =>
+        match dS.toNat?, cellsS.toNat?, callsS.toNat? with
+        | some d, some cells, some calls =>
+          n := n + 1
+          stats := s!"bud.lying.{(result.splitOn ":").headD ""}" :: stats
+          let where_ := s!"lying kernel mode={mode} advanced={adv} D={d} cells={cells}"
+          if result.startsWith "panic" then bad := s!"{where_}: repair panicked: {result}" :: bad
+          if calls > workBound d cells debug then
+            bad := s!"{where_}: {calls} in-sphere evaluations, the budgets imply at most {workBound d cells debug} (the loop is not bounded by its flip budget)" :: bad
+          match flipsS.toInt?, maxS.toInt? with
+          | some flips, some maxf =>
+            if result == "nonconvergent" then
+              if maxf != (defaultMaxFlips d cells debug : Int) then
+                bad := s!"{where_}: NonConvergent reports max_flips={maxf}, default_max_flips = {defaultMaxFlips d cells debug}" :: bad
+              -- loop_flips_bounded: a non-convergent attempt applied at most max_flips + 1 flips
+              if flips > maxf + 1 then bad := s!"{where_}: NonConvergent after {flips} flips with max_flips={maxf}" :: bad
+            if result == "ok" && flips > (defaultMaxFlips d cells debug : Int) then
+              bad := s!"{where_}: Ok after {flips} flips (budget {defaultMaxFlips d cells debug})" :: bad
+          | _, _ => pure ()
+          if result != "ok" && unchanged != "1" then bad := s!"{where_}: repair returned {result} but the triangulation changed" :: bad
+          match secsS.toNat? with | _ => pure ()
+        | _, _, _ => pure ()
+      | _ => pure ()
     if !bad.isEmpty then return { status := "ORACLE", detail := " ; ".intercalate bad.reverse, stats := stats }
     return { status := if n == 0 then "skip" else "ok", stats := stats }
 
